@@ -209,13 +209,13 @@ func runE2E(d Desc, cw *hlib.CaseWriter, idBase int) {
 			}
 			switch {
 			case class == vAccept && !next:
-				rep.Fail("process:accepted-not-next-items", "the real Process accepts a block whose ETXs are not the next items of the queue: "+vd.Note, vd)
+				rep.Fail("process-real:accepted-not-next-items", "the real Process accepts a block whose ETXs are not the next items of the queue: "+vd.Note, vd)
 			case class == vAccept && below:
-				rep.Fail("process:min-inclusion-not-enforced", "the real Process accepts a block below the minimum inclusion while the queue stays non-empty: "+vd.Note, vd)
+				rep.Fail("process-real:min-inclusion-not-enforced", "the real Process accepts a block below the minimum inclusion while the queue stays non-empty: "+vd.Note, vd)
 			case class == vAccept && above:
-				rep.Fail("process:max-inclusion-not-enforced", "the real Process accepts a block above the maximum inclusion: "+vd.Note, vd)
+				rep.Fail("process-real:max-inclusion-not-enforced", "the real Process accepts a block above the maximum inclusion: "+vd.Note, vd)
 			case class != vAccept && class != 9 && next && !below && !above && num <= params.TimeToStartTx:
-				rep.Fail("process:rejected-next-items", "the real Process refuses, at an ETX check, a block containing exactly the next items within the inclusion window: "+vd.Note, vd)
+				rep.Fail("process-real:rejected-next-items", "the real Process refuses, at an ETX check, a block containing exactly the next items within the inclusion window: "+vd.Note, vd)
 			case v.name == "honest" && class != vAccept:
 				rep.Fail("e2e:honest-block-refused", fmt.Sprintf("Process refuses the block the node's own worker assembled (%v): %s", perr, vd.Note), vd)
 			}
@@ -237,7 +237,7 @@ func runE2E(d Desc, cw *hlib.CaseWriter, idBase int) {
 			okPrefix = honest[i].Hash() == q[i].Hash()
 		}
 		if !okPrefix {
-			fail("process:accepted-not-next-items", fmt.Sprintf("step %d: the appended block's %d ETXs are not the next items of the %d pending ones", step, h, len(q)))
+			fail("process-real:accepted-not-next-items", fmt.Sprintf("step %d: the appended block's %d ETXs are not the next items of the %d pending ones", step, h, len(q)))
 			return
 		}
 		queue = q[h:]
